@@ -228,26 +228,37 @@ func prop(c harness.Case) harness.Result {
 	} else {
 		res.Labels = append(res.Labels, "has_raw_html_nodes")
 	}
-	for _, cf := range cfgs {
-		r := &cm.HTMLRenderer{ReferenceMap: refs, SoftBreakBehavior: cf.soft, IgnoreRaw: cf.ignore}
-		for bi, b := range blocks {
-			out := string(r.AppendBlock(nil, b))
-			if strings.ContainsAny(out, "<>&\"'") {
-				reach = true
-			}
-			want := map[string]int{}
-			for _, t := range refrender.Block(refrender.Config{Soft: cf.soft, IgnoreRaw: cf.ignore}, refs, b.Source, &b.Block, false) {
-				if t.Kind == refrender.TStart {
-					key := t.Name
-					for _, a := range t.Attrs {
-						key += " " + a.Name
-					}
-					want[key]++
+	// the renderer's reference map is the caller's: the document's own, none
+	// at all, or one that lacks the document's labels (a map from another
+	// document); the output is markup the renderer chose in each case
+	maps := []cm.ReferenceMap{refs}
+	if c.I["foreignmap"] == 1 {
+		maps = []cm.ReferenceMap{nil, {"zz-not-in-the-document": cm.LinkDefinition{Destination: "/f\"<>", Title: "t\"<&", TitlePresent: true}}}
+		res.Labels = append(res.Labels, "rendered_with_foreign_reference_map")
+	}
+	for _, cf0 := range cfgs {
+		for _, rmap := range maps {
+			cf, refs := cf0, rmap
+			r := &cm.HTMLRenderer{ReferenceMap: refs, SoftBreakBehavior: cf.soft, IgnoreRaw: cf.ignore}
+			for bi, b := range blocks {
+				out := string(r.AppendBlock(nil, b))
+				if strings.ContainsAny(out, "<>&\"'") {
+					reach = true
 				}
-			}
-			if err := strict(out, want); err != nil {
-				res.Err = fmt.Errorf("soft=%v ignoreRaw=%v root block %d: %v\n output: %q", cf.soft, cf.ignore, bi, err, out)
-				return res
+				want := map[string]int{}
+				for _, t := range refrender.Block(refrender.Config{Soft: cf.soft, IgnoreRaw: cf.ignore}, refs, b.Source, &b.Block, false) {
+					if t.Kind == refrender.TStart {
+						key := t.Name
+						for _, a := range t.Attrs {
+							key += " " + a.Name
+						}
+						want[key]++
+					}
+				}
+				if err := strict(out, want); err != nil {
+					res.Err = fmt.Errorf("soft=%v ignoreRaw=%v root block %d: %v\n output: %q", cf.soft, cf.ignore, bi, err, out)
+					return res
+				}
 			}
 		}
 	}
@@ -258,11 +269,14 @@ func prop(c harness.Case) harness.Result {
 const rule = "(three cases in four through Parse, one through the streaming parser with incremental rewriting) G1/G2/G3 inputs and sink templates (hostile payload placed where text reaches an attribute or element: text, code, info string, destinations, titles, image descriptions, autolinks, list starts) x IgnoreRaw=true with 3 soft-break behaviours, plus IgnoreRaw=false when the tree has no raw-HTML node; oracle = strict output grammar (O2), fixed element/attribute vocabulary, nesting, well-formed character references against the WHATWG name table, start-tag census equal to the one the tree predicts, agreement with x/net/html's tokenizer; non-trivial = input contains one of < > & \" ' and the output contains markup or escapes"
 
 func plan() harness.Plan {
-		return harness.Plan{Prop: "C07", Suppress: findings.Suppressor("C07"), Checks: []harness.Check{
+	return harness.Plan{Prop: "C07", Suppress: findings.Suppressor("C07"), Checks: []harness.Check{
 		{Name: "safe_output", Quick: 50000, Thorough: 700000, Gen: func(t *rapid.T) harness.Case {
 			c := harness.Case{In: gen.DocOrSink().Draw(t, "in")}
 			if rapid.IntRange(0, 3).Draw(t, "entry") == 0 {
 				c.SetI("entry", 1)
+			}
+			if rapid.IntRange(0, 4).Draw(t, "foreignmap") == 0 {
+				c.SetI("foreignmap", 1)
 			}
 			return c
 		}, Prop: prop, Rule: rule},
@@ -271,7 +285,13 @@ func plan() harness.Plan {
 			c.SetI("entry", 1)
 			return c
 		}, Prop: prop, Rule: "documents of 20-80 KB with hundreds of root blocks, parsed through NewBlockParser with every block rewritten as soon as it is delivered and rendered after the whole input was read: " + rule},
-		{Name: "sinks", Quick: 50000, Thorough: 700000, Gen: func(t *rapid.T) harness.Case { return harness.Case{In: gen.Sink().Draw(t, "in")} }, Prop: prop, Rule: "sink templates only: " + rule},
+		{Name: "sinks", Quick: 50000, Thorough: 700000, Gen: func(t *rapid.T) harness.Case {
+			c := harness.Case{In: gen.Sink().Draw(t, "in")}
+			if rapid.IntRange(0, 4).Draw(t, "foreignmap") == 0 {
+				c.SetI("foreignmap", 1)
+			}
+			return c
+		}, Prop: prop, Rule: "sink templates only: " + rule},
 	}}
 }
 
